@@ -129,6 +129,27 @@ def execute(scn, seed, plans=None, snapshots=True, keep=False, stop_after=None, 
             if k == "git":
                 _git_op(world, op)
                 continue
+            if k == "legacy_index":
+                # a project last used with Conductor <= 0.4: version index in format 1
+                co = root / "cond-out"
+                co.mkdir(exist_ok=True)
+                c = sim.REAL.sqlite_connect(str(co / "version_index.sqlite"))
+                c.execute("CREATE TABLE version_index (task_identifier TEXT NOT NULL, timestamp INTEGER NOT NULL, "
+                          "git_commit TEXT NOT NULL, PRIMARY KEY (task_identifier, timestamp))")
+                from . import model as _M2
+
+                for t_, ts_ in op.get("rows", []):
+                    c.execute("INSERT INTO version_index VALUES (?, ?, ?)", (t_, ts_, "0" * 40))
+                    d_ = co / _M2.out_dir_rel(t_, ts_)
+                    d_.mkdir(parents=True, exist_ok=True)
+                    (d_ / "stdout.log").write_bytes(b"")
+                    (d_ / "stderr.log").write_bytes(b"")
+                    (d_ / "old.txt").write_bytes(b"legacy result")
+                c.execute("PRAGMA user_version = 1")
+                c.commit()
+                c.close()
+                world.count("fault.legacy_format_1_index")
+                continue
             if k == "foreign":
                 # the same project checked out elsewhere (another machine): a task is run there at a
                 # chosen wall-clock time and everything is archived; the archive is then available here
@@ -196,6 +217,13 @@ def execute(scn, seed, plans=None, snapshots=True, keep=False, stop_after=None, 
             op["argv"] = S.op_argv(op)
             if str(op.get("cwd", "")).startswith("@"):
                 op["cwd"] = _resolve_cwd_token(root, op["cwd"])
+            if op.get("env"):
+                env = dict(op["env"])
+                for ek, ev in list(env.items()):
+                    if isinstance(ev, str) and ev.startswith("@abs-expdir:"):
+                        d = _resolve_cwd_token(root, "@expdir:" + ev.split(":", 1)[1])
+                        env[ek] = str(root / d) if d else "/nonexistent/outer.task"
+                op["env"] = env
             if op.get("cwd") and not (root / op["cwd"]).is_dir():
                 op["cwd"] = ""      # the drawn directory does not exist (yet): start from the root
             st.cwd_used = op.get("cwd", "")
@@ -280,7 +308,8 @@ def _git_op(world, op):
             g["branches"][op["new_branch"]] = g["head"]
             g["cur_branch"] = op["new_branch"]
     elif a == "dirty":
-        g["dirty"] = bool(op.get("value", True))
+        v = op.get("value", True)
+        g["dirty"] = v if v == "staged" else bool(v)
     elif a == "remove":
         g.clear()
         g.update({"mode": "none"})
